@@ -208,6 +208,26 @@ func scenarios(tier string, seed int64) []Scn {
 		add(Scn{Budget: 3, Base: "idle", Script: "slow-handler", Writer: "call", Refuse: -1, Mode: "reject", UserID: true})
 		add(Scn{Budget: 1, Base: "awaiting", Script: "slow-handler", Writer: "call", Hook: "handshake"})
 		add(Scn{Budget: -1, Base: "awaiting", Script: "redundant-redial", Writer: "call", Hook: "handshake"})
+		// repeated losses with refused attempts: every round has its own budget of n retries, and a
+		// second session dialed afterwards from the same peer is as redial-enabled as the first
+		for _, n := range []int{2, 3} {
+			i := 0
+			for _, l := range []int{n + 1, 2*n + 1} {
+				for _, rf := range []int{1, n - 1} {
+					if n == 2 && rf == 1 && i%2 == 1 {
+						i++
+						continue // n = 2: both refusal counts coincide
+					}
+					md := [][2]string{{"reject", "handshake"}, {"down", "plain"}, {"down", "handshake"}}[(i+n)%3]
+					add(Scn{Budget: n, Base: []string{"idle", "awaiting"}[i%2], NCalls: 2, Losses: l, Refuse: rf, Mode: md[0], Hook: md[1],
+						UserID: i%2 == 0, RST: i%3 == 0, Second: true})
+					i++
+				}
+			}
+			add(Scn{Budget: n, Base: "awaiting", NCalls: 1, Losses: n + 1, Refuse: 1, Mode: "reject", Hook: "handshake", RST: n == 3, Second: true})
+			// exactly n refused attempts in total, then the second session
+			add(Scn{Budget: n, Base: "idle", Losses: n, Refuse: 1, Mode: "reject", Hook: "handshake", UserID: true, Second: true})
+		}
 		// repeated
 		add(Scn{Budget: 1, Base: "idle", Losses: 3, UserID: true})
 		add(Scn{Budget: 3, Base: "awaiting", Losses: 2, Refuse: 1, Mode: "reject", Hook: "handshake"})
@@ -296,6 +316,17 @@ func scenarios(tier string, seed int64) []Scn {
 			if !strings.HasPrefix(sc, "drop@") && !strings.Contains(sc, "@redialfn.") && sc != "second-redial" && sc != "redundant-redial" {
 				addb(Scn{Budget: b, Base: "idle", Script: sc, Writer: []string{"call", "push"}[b/2], Refuse: -1, Mode: "reject"})
 				addb(Scn{Budget: b, Base: "awaiting", NCalls: 2, Script: sc, Writer: []string{"push", "call"}[b/2], Refuse: -1, Mode: "down", UserID: true})
+			}
+		}
+	}
+	// repeated losses with refused attempts (per-round budget) and a second session afterwards
+	for _, n := range []int{2, 3} {
+		for _, l := range []int{n, n + 1, 2*n + 1} {
+			for _, rf := range []int{1, n - 1, n} {
+				for mi, md := range [][2]string{{"reject", "handshake"}, {"down", "plain"}, {"down", "handshake"}} {
+					addb(Scn{Budget: n, Base: []string{"idle", "awaiting", "mid-write"}[(l+rf+mi)%3], NCalls: 1, K: 9, Losses: l, Refuse: rf, Mode: md[0], Hook: md[1],
+						UserID: (l+mi)%2 == 0, RST: rf%2 == 0, Second: true})
+				}
 			}
 		}
 	}
